@@ -14,7 +14,7 @@ def error_blocks(f):
     the return place) to _0, or call FromResidual::from_residual into _0."""
     out = set()
     # locals that are only ever moved into _0
-    alias = {0}
+    alias = {0} | set(f.inl_err_locals or ())      # spliced callees whose result is propagated: their error exits are the caller's
     for bb in f.blocks:
         for s in bb["s"]:
             if "d" in s and s["d"]["l"] == 0 and not s["d"].get("p") and s["v"]["r"] == "use":
